@@ -38,7 +38,7 @@ def gen_universe(rng, nkeys):
     tries = 0
     while len(keys) < nkeys and tries < 200:
         tries += 1
-        base = rng.choice(stems + list(keys)) if keys and rng.random() < 0.6 else rng.choice(stems)
+        base = rng.choice(stems + sorted(keys)) if keys and rng.random() < 0.6 else rng.choice(stems)
         how = rng.random()
         if how < 0.25 and len(base) > 0:
             k = base[:rng.randint(0, len(base))]
@@ -159,6 +159,27 @@ class Boom(Exception):
     """raised by the harness inside a squash_changes block"""
 
 
+class WriteFailed(Exception):
+    """raised by FailingDict.__setitem__"""
+
+
+class FailingDict(dict):
+    """a database whose n-th write from now fails (fail_after = n, None = never); counts writes"""
+
+    def __init__(self, *a, **kw):
+        super().__init__(*a, **kw)
+        self.fail_after = None
+        self.writes = 0
+
+    def __setitem__(self, k, v):
+        if self.fail_after is not None:
+            if self.fail_after == 0:
+                raise WriteFailed()
+            self.fail_after -= 1
+        self.writes += 1
+        super().__setitem__(k, v)
+
+
 # --------------------------------------------------------------------------------------------
 # the adapter
 # --------------------------------------------------------------------------------------------
@@ -233,23 +254,43 @@ class HexRunner:
                     self.observe(self, "0", self.trie, self.model)
 
     def batch(self, exit_kind, inner):
-        self.res.tags.add("batch:" + exit_kind)
+        """exit_kind: "ok" | "raise" (after all inner ops) | ["raise", n] (after n inner ops) |
+        ["failcommit", n] (the n-th write of the commit fails; needs a FailingDict)"""
+        kind = exit_kind if isinstance(exit_kind, str) else exit_kind[0]
+        self.res.tags.add("batch:" + kind)
         self.res.emit("hx.bbegin 0", "ok")
         bmodel = dict(self.model)
+        raise_at = len(inner) if exit_kind == "raise" else (min(exit_kind[1], len(inner)) if kind == "raise" else None)
+        outcome = None
         try:
             with self.trie.squash_changes() as b:
-                for op in inner:
+                for i, op in enumerate(inner):
+                    if raise_at is not None and i == raise_at:
+                        raise Boom()
                     self.simple("b", b, bmodel, op)
                     if self.observe:
                         self.observe(self, "b", b, bmodel)
-                if exit_kind == "raise":
+                if raise_at is not None:
                     raise Boom()
+                if kind == "failcommit":
+                    self.res.emit("hx.failafter %d" % exit_kind[1], "ok")
+                    self.db.fail_after = exit_kind[1]
         except Boom:
             self.res.emit("hx.bend 1", "ok")
+            outcome = "aborted"
+        except WriteFailed:
+            self.res.emit("hx.bend 0", "exn WriteFailed")
+            outcome = "commit-failed"
         else:
             self.res.emit("hx.bend 0", "ok")
             self.model.clear()
             self.model.update(bmodel)
+            outcome = "committed"
+        if kind == "failcommit":
+            self.db.fail_after = None
+            self.res.emit("hx.failafter none", "ok")
+        self.res.tags.add("batch-outcome:" + outcome)
+        self.last_batch_outcome = outcome
         if self.observe:
             self.observe(self, "0", self.trie, self.model)
 
